@@ -45,6 +45,11 @@ POOL = {
     "gt2": "@qlassf\ndef gt2(x: Qint[2], y: Qint[2]) -> bool:\n    return x > y\n",
     "add2": "@qlassf\ndef add2(x: Qint[2], y: Qint[2]) -> Qint[2]:\n    return x + y\n",
     "eq3": "@qlassf\ndef eq3(x: Qint[2]) -> bool:\n    return x == 3\n",
+    # nested optimizer temporaries (x2 defined through x1, ...): inlining has to be transitive
+    "rng": "@qlassf\ndef rng(x: Qint[4], y: Qint[4]) -> bool:\n    c = x + y\n    return c > 4 and c < 9\n",
+    # conjunction of the return bits is unsatisfiable / a contradiction that only simplification reveals
+    "fls": "@qlassf\ndef fls(a: Qint[2], b: bool) -> bool:\n    return (a > 3) or (b and not b)\n",
+    "ctr": "@qlassf\ndef ctr(a: bool, b: bool) -> Tuple[bool, bool]:\n    return (a and b, not a)\n",
     "tmp": "@qlassf\ndef tmp(a: bool, b: bool, c: bool) -> bool:\n    d = a and b\n    e = d ^ c\n    return (e or d) and not (a and b and c)\n",
 }
 NAMES = sorted(POOL)
@@ -54,7 +59,7 @@ def scripts(tier):
     out = [[n] for n in NAMES]
     multi = [["and2", "or2"], ["or2", "and2"], ["xr3", "maj"], ["maj", "xr3"], ["gt2", "add2"], ["add2", "gt2"], ["tmp", "idn"],
              ["cst", "orn3"], ["orn3", "eq3", "mux"], ["mux", "eq3", "orn3"], ["idn", "tmp", "and2"], ["eq3", "cst", "gt2"],
-             ["add2", "mux", "or2"], ["maj", "and2", "tmp"]]
+             ["add2", "mux", "or2"], ["maj", "and2", "tmp"], ["rng", "idn"], ["fls", "ctr"], ["ctr", "fls", "cst"]]
     if tier == "thorough":
         multi += [list(p) for p in itertools.permutations(["and2", "xr3", "gt2"], 3)] + [list(p) for p in itertools.permutations(["tmp", "add2"], 2)] + \
                  [["orn3", "or2"], ["or2", "orn3"], ["eq3", "idn"], ["idn", "eq3"], ["cst", "maj", "mux"], ["mux", "maj", "cst"], ["gt2", "tmp"], ["tmp", "gt2"]]
@@ -80,6 +85,8 @@ def cases(shard):
     k = 0
     if shard["tool"] == "py2bexp":
         for form in FORMS:
+            if form == "anf" and "rng" in sc and tier == "quick":
+                continue  # sympy's to_anf needs 15 s on this 8-variable function: thorough only
             for fmt in ("sympy", "dimacs"):
                 for e in entries:
                     modes = IO_MODES if tier == "thorough" else [IO_MODES[k % 4], IO_MODES[(k + 2) % 4]]
@@ -112,6 +119,8 @@ def run_main(modname, argv, stdin_text):
                 mod.main()
             except SystemExit as e:
                 code = e.code
+            except Exception as e:  # a crash of the tool is reported as such, not as a harness error
+                code = "raised %s: %s" % (type(e).__name__, str(e)[:120])
     finally:
         sys.argv, sys.stdin = old_argv, old_stdin
     return out.getvalue(), err.getvalue(), code
